@@ -49,7 +49,7 @@ def prop(pid, rules, explanation, not_decided, assumptions=(), trusted=('A1', 'A
 prop('C09',
      [('R00.dyn', RG.rule_no_dynamic), ('R09.d', RC.rule_definition), ('R03.a', RC.rule_core),
       ('R03.b', RC.rule_mask_sites), ('R09.w', RC.rule_weak_coupling), ('R09.e', RC.rule_elementwise),
-      ('R09.p', RC.rule_purity), ('R09.h', RC.rule_history), ('R09.a', RC.rule_aliases)],
+      ('R09.p', RC.rule_purity), ('R09.h', RC.rule_history), ('R09.f', RC.rule_flag_reassigned), ('R09.a', RC.rule_aliases)],
      'Static analysis of pyPRISM/closure: for every AtomicClosure subclass and both values of apply_hard_core the '
      'return term of calculate(r,gamma) is extracted by abstract interpretation over canonical terms (exact '
      'rational-function normal form with exp/sqrt atoms, piecewise on the three orderings of r and sigma) and '
@@ -65,7 +65,9 @@ prop('C09',
 prop('C10',
      [('R00.dyn', RG.rule_no_dynamic), ('R10.d', RP.rule_definition), ('R03.d', RP.rule_core),
       ('R10.k', RP.rule_cut_shift),
-      ('R10.w', RP.rule_wca), ('R10.p', RP.rule_purity), ('R10.h', RP.rule_history), ('R10.t', RP.rule_contact)],
+      ('R10.w', RP.rule_wca), ('R10.p', RP.rule_purity), ('R10.h', RP.rule_history), ('R10.t', RP.rule_contact),
+      ('R10.g', RD.rule_grid_products), ('R16.w', RP2.rule_wiring), ('R16.c', RP2.rule_copy_and_frame),
+      ('R15.s', RDn.rule_diameter)],
      'Static analysis of pyPRISM/potential: constructors and calculate(r) of every Potential subclass are abstractly '
      'interpreted with symbolic parameters (stored lambdas inlined with their captured constructor arguments, '
      'super().calculate followed through the MRO) for every flag valuation (rcut None/given, shift); the piecewise '
@@ -122,7 +124,7 @@ def _r13_arith(ctx):
 prop('C13',
      [('R00.dyn', RG.rule_no_dynamic), ('R13.1', RM.rule_members), ('R13.2', RM.rule_space_guard),
       ('R13.5', _r13_arith), ('R13.6', RM.rule_dot_invert), ('R13.9', RM.rule_items), ('R13.u', RM.rule_unknown_names),
-      ('R13.i', RM.rule_iterpairs), ('R13.I', RM.rule_identity), ('R13.h', RM.rule_history)],
+      ('R13.i', RM.rule_iterpairs), ('R13.I', RM.rule_identity), ('R13.h', RM.rule_history), ('R13.t', RM.rule_typemap)],
      'Static analysis of pyPRISM/core/MatrixArray.py: every operator member is abstractly interpreted on a heap with '
      'array identity for each operand kind (MatrixArray, scalar, ndarray): the result term must be the elementwise '
      'operation (einsum literal parsed to the batch matrix product for dot, linalg.inv for invert); out-of-place '
@@ -200,7 +202,8 @@ prop('C05',
 
 prop('C06',
      [('R00.dyn', RG.rule_no_dynamic), ('R06.f', RCa.rule_frame_and_typestate), ('R06.h', RCa.rule_resolve_history), ('R01.f', RP2.rule_post_solve),
-      ('R01.a', RP2.rule_cost), ('R07.t', RD.rule_roundtrip), ('R07.m', RD.rule_matrixarray_transforms)],
+      ('R01.a', RP2.rule_cost), ('R07.t', RD.rule_roundtrip), ('R07.i', RD.rule_mutators),
+      ('R07.m', RD.rule_matrixarray_transforms)],
      'Static analysis: every calculate function is abstractly interpreted for every flag valuation and every one of the '
      '8 combinations of spaces (Real/Fourier) the three stored arrays can be in, on a heap with array identity and '
      'views: (frame) the only persistent writes are the sanctioned in-place space transforms and brand-new cache '
@@ -216,7 +219,7 @@ prop('C06',
 prop('C16',
      [('R00.dyn', RG.rule_no_dynamic), ('R16.x', RP2.rule_system_check), ('R16.d', RP2.rule_check_dominates),
       ('R16.c', RP2.rule_copy_and_frame), ('R16.w', RP2.rule_wiring), ('R14.c', R14_SETITEM),
-      ('R14.k', R14_SETUNSET)],
+      ('R14.k', R14_SETUNSET), ('R07.i', RD.rule_mutators)],
      'Static analysis of System/PRISM construction: System.__init__ is interpreted to enumerate the tables it creates and '
      'System.check must visit each of them (and refuse a missing domain with ValueError) without writing; in '
      'createPRISM/solve an unconditional self.check() must dominate PRISM(self); PRISM.__init__ is abstractly interpreted '
@@ -236,7 +239,8 @@ prop('C01',
       ('R16.w', RP2.rule_wiring), ('R16.c', RP2.rule_copy_and_frame),
       ('R09.d', RC.rule_definition), ('R03.a', RC.rule_core), ('R09.p', RC.rule_purity), ('R09.h', RC.rule_history_values),
       ('R14.c', R14_SETITEM),
-      ('R15.f', RDn.rule_density), ('R07.t', RD.rule_roundtrip), ('R07.m', RD.rule_matrixarray_transforms),
+      ('R15.f', RDn.rule_density), ('R07.t', RD.rule_roundtrip), ('R07.i', RD.rule_mutators),
+      ('R07.m', RD.rule_matrixarray_transforms),
       ('R13.5', _r13_arith), ('R13.6', RM.rule_dot_invert), ('R13.9', RM.rule_items)],
      'Static analysis: PRISM.__init__ and PRISM.cost are abstractly interpreted end to end on a symbolic System (per-pair '
      'closure/potential/omega objects, pair loops with symbolic labels, MatrixArray operators interpreted from source). '
@@ -299,7 +303,7 @@ prop('C04',
      [('R00.dyn', RG.rule_no_dynamic), ('R04.a', RI.rule_swap_symmetry), ('R04.b', RI.rule_symmetric_tables),
       ('R04.c', RI.rule_label_parametricity), ('R04.e', RI.rule_potential_degree), ('R04.k', RI.rule_kT_degree),
       ('R15.f', RDn.rule_density), ('R15.s', RDn.rule_diameter), ('R13.9', RM.rule_items),
-      ('R14.m', R14_SETITEM), ('R13.i', RM.rule_iterpairs), ('R14.i', R14_ITERPAIRS),
+      ('R14.m', R14_SETITEM), ('R13.i', RM.rule_iterpairs), ('R13.t', RM.rule_typemap), ('R14.i', R14_ITERPAIRS),
       ('R05.x', RCa.rule_chi), ('R05.l', RCa.rule_spinodal), ('R05.b2', RCa.rule_second_virial),
       ('R16.w', RP2.rule_wiring), ('R01.a', RP2.rule_cost)],
      'Static analysis of the structural part: (permutation/renaming) core/ and calculate/ never address a type by a '
@@ -326,6 +330,8 @@ def run(pid, tier, repo, seed=0, replay=None, write=True):
         return 2
     ctx = Ctx(pid, tier, prog, seed)
     ctx.trusted |= set(spec['trusted'])
+    from . import lib as _L
+    _L.STRICT_AXIS = pid in ('C07', 'C08')
     for rid, fn in spec['rules']:
         ctx.run(rid, fn)
     if tier == 'thorough' and replay is None:
